@@ -300,7 +300,11 @@ func (d *Data) PutBlocks(v dvid.VersionID, mutID uint64, start dvid.ChunkPoint3d
 			}
 		}
 	}
-	return nil
+
+	// The advertised extents must cover the blocks just written, as they do for PutVoxels.
+	last := start
+	last[0] += int32(span - 1)
+	return d.PostExtents(ctx, start.MinPoint(d.BlockSize()), last.MaxPoint(d.BlockSize()))
 }
 
 // PutChunk puts a chunk of data as part of a mapped operation.
